@@ -175,7 +175,7 @@ class TokSpec:
 
     def describe(self):
         return {'is_tokenizer': True, 'is_qgram': self.kind == 'qgram', 'qval': self.qval,
-                'return_set': bool(self.obj.get_return_set()), 'kind': self.kind, 'padding': self.padding}
+                'return_set': bool(self.obj.get_return_set()), 'kind': self.kind, 'padding': self.padding, 'delims': self.delims}
 
     def tokens(self, s, mode):
         old = self.obj.get_return_set()
